@@ -237,7 +237,7 @@ func (tree *MutableTree) Iterate(fn func(key []byte, value []byte) bool) (stoppe
 			return true, nil
 		}
 	}
-	return false, nil
+	return false, itr.Error()
 }
 
 // Iterator returns an iterator over the mutable tree.
